@@ -43,6 +43,33 @@ CHECKS = {
          "process. Histories are sampled (quick ~20, thorough ~150); the model-level exploration is exhaustive for its bounds.",
          "PlusCal/TLA+ model of the loader + TLC; model histories replayed in fresh processes; trace validation of projected theory states",
          "6/C12"),
+ "C09": ("model_checking",
+        "TLC model-checks spec/C09_Matcher.tla: a machine over the input space of first_order_match (every well-typed pattern with "
+        "schematic variables of bounded depth plus ~30 deeper Miller / repeated / polymorphic / non-pattern shapes, every small "
+        "instantiation as positive target in normalised, raw, eta-contracted and eta-expanded form, every one-atom perturbation and "
+        "unrelated terms as negatives, given instantiations empty / partial / full / foreign / inconsistent); invariants: the generating "
+        "instantiation Matches (reference Subst + beta-eta normal forms), first-order positives are found by the brute-force oracle from "
+        "every consistent seed and by no inconsistent one, witnesses are unique, and the cheap candidate universe loses no witness. Every "
+        "vector is replayed through logic/matcher.py (clashing and distinct binder names, first_order_match and first_order_match_list), "
+        "plus seeded random inputs with library theorems as patterns; TLC judges every call (spec/C09_MatcherTrace.tla): success => "
+        "pattern instantiated by the returned types+terms equals the target up to beta-eta, the result extends the given instantiation, "
+        "the caller's object is unchanged; first-order literal instance exists => the call succeeds.",
+        "Trusted: TLC/SANY, reference term algebra spec/lib/HolTerms.tla + HolGen.tla (checked against finite-model semantics by C03), "
+        "structural codec, CPython. Completeness is judged only for first-order beta-normal patterns and literal instances; incompleteness "
+        "of higher-order matching is logged as divergence. Targets contain no schematic variables.",
+        "TLA+ contract of matching + input-space machine, TLC model checking, vector replay and trace validation against logic/matcher.py",
+        "6/C09"),
+ "C13": ("model_checking",
+        "TLC model-checks spec/C13_Editor.tla (identifier arithmetic of kernel/proof.py and the line edits of ProofState with ghost item "
+        "identities: all sequences of <= 3/4 add/remove/cite actions; invariants Contiguous, CitationsTrackItems, NoDanglingUnlessRemoved). "
+        "The real editor is driven over seeded library theorems: every recorded step (live or on a copy), seeded perturbations (other "
+        "suggested methods, goals and facts, cut, cases, new_var, introduction, revert_intro, two deep) and ProofCache.insert_step; after "
+        "EVERY completed operation the projected state, a full re-check, a gap-free re-check when no gap is left, the export -> parse_proof "
+        "round trip and the original-under-copy projection are judged by TLC (spec/C13_EditorTrace.tla) on ten clauses.",
+        "Trusted: TLC/SANY, the projection (sequents interned through the structural codec), CPython. z3 steps are not re-run (as the "
+        "repository's monitor). Operations that raise are not judged. Theorems are sampled by seed (quick: 3 theories x 8; thorough: 10 x 60).",
+        "TLA+ spec of proof-line renumbering + TLC; trace validation of real editing sessions, state by state",
+        "6/C13"),
 }
 
 NOT_YET = {}
